@@ -35,13 +35,17 @@ def api_close_sessions(chk):
         errs = []
         late_cb = []
 
+        closes = []
+
         def do_close(api, tag):
+            live = s.port is not None and s.port.is_open  # the transport was open when this close() started
             try:
                 api.close()
             except dsim.SimAbort:
                 raise
             except BaseException as e:  # noqa
                 errs.append((tag, type(e).__name__, str(e)[:100]))
+            closes.append((tag, live, len(s.sim.events)))
 
         def body(s):
             api = s.make_api()
@@ -86,6 +90,9 @@ def api_close_sessions(chk):
             chk.violation("C16:api-disconnect-reported", f"the disconnect callback was invoked by a planned YncaApi.close() ({mode})", rep)
         elif late_cb:
             chk.violation("C16:api-callback-after-close", f"an update callback was started after close() had returned ({mode}): {late_cb[0]}", rep)
+        elif any(live and any(e["k"] == "Write" for e in s.sim.events[idx:]) for tag, live, idx in closes):
+            tag = next(tag for tag, live, idx in closes if live and any(e["k"] == "Write" for e in s.sim.events[idx:]))
+            chk.violation("C16:api-write-after-close", f"lines were written to the device after YncaApi.close() ({mode}, called on an open transport by {tag}) had returned", rep)
         elif s.port is not None and (s.port.is_open or not s.threads_done()):
             chk.violation("C16:api-not-released", f"after YncaApi.close() ({mode}) port open={s.port.is_open}, threads={[(t.name, t.state) for t in s.sim.threads]}", rep)
 
